@@ -63,6 +63,21 @@ class FileStandIn:
         return out
 
 
+    def seek(self, offset, whence=0):
+        """io semantics: 0 from the start, 1 from the current position, 2 from the end"""
+        base = 0 if whence == 0 else (self.pos if whence == 1 else len(self.text))
+        if base + offset < 0:
+            raise ValueError("negative seek position")
+        self.pos = base + offset
+        return self.pos
+
+    def tell(self):
+        return self.pos
+
+    def getvalue(self):
+        return self.text
+
+
 class IterStandIn:
     """`iter(xs)` over a list / tuple: a position that loops and next() advance, shared by everything that holds the iterator"""
 
@@ -180,6 +195,7 @@ class Evaluator:
         self.calls = 0
         self._const_stack = set()
         self._const_cache = {}
+        self._yield_stack = []
         self._class_objects = {}
         self.class_attrs = {}
 
@@ -235,6 +251,21 @@ class Evaluator:
                 if kd is None:
                     raise Undecided("missing keyword-only argument")
                 env[ko.arg] = self._expr(kd, {}, mod, cls)
+        if any(isinstance(x, (ast.Yield, ast.YieldFrom)) for x in ast.walk(fn)):
+            # a generator function: its values are produced eagerly into a list (the functions the rules evaluate are pure, so the order of
+            # evaluation is not observable) -- except that an exception inside it might lie behind the point where a lazy consumer stops,
+            # so a raise during eager production is not taken as a fact about the program
+            collected = []
+            self._yield_stack.append(collected)
+            try:
+                self._block(fn.body, env, mod, cls)
+            except _Return:
+                pass
+            except Raised as x_:
+                raise Undecided("generator %s raises %s somewhere in its sequence" % (fn.name, x_.name))
+            finally:
+                self._yield_stack.pop()
+            return collected
         try:
             self._block(fn.body, env, mod, cls)
         except _Return as r:
@@ -654,8 +685,8 @@ class Evaluator:
                     raise Undecided("attribute %s of a module stand-in" % e.attr)
                 v_ = getattr(o, e.attr)
                 return ("pyfunc", v_) if callable(v_) else v_
-            if isinstance(o, FileStandIn) and e.attr == "read":
-                return ("pymethod", o, "read")
+            if isinstance(o, FileStandIn) and e.attr in ("read", "seek", "tell", "getvalue"):
+                return ("pymethod", o, e.attr)
             if isinstance(o, Obj):
                 if e.attr == "__class__" and o.mod != "builtins":
                     return ClassRef(o.mod, o.cls)
@@ -694,6 +725,8 @@ class Evaluator:
                 if e.attr == "__init__":
                     return ("noop",)
                 raise Undecided("super().%s" % e.attr)
+            if isinstance(o, tuple) and o and o[0] in ("func", "method", "closure") and e.attr in ("cache_clear", "cache_info"):
+                return ("noop",)   # the evaluator never memoises: clearing a memo of the evaluated program has nothing to clear
             if isinstance(o, type) and (o, e.attr) in ((int, "from_bytes"), (bytes, "fromhex"), (bytes, "join"), (str, "join")):
                 return ("pyfunc", getattr(o, e.attr))
             for ty, ms in _PURE_METHODS.items():
@@ -760,6 +793,19 @@ class Evaluator:
             if isinstance(e, ast.SetComp):
                 return set(out)
             return out
+        if isinstance(e, ast.Yield):
+            if not self._yield_stack:
+                raise Undecided("yield outside a generator function")
+            self._yield_stack[-1].append(self._expr(e.value, env, mod, cls) if e.value is not None else None)
+            return None
+        if isinstance(e, ast.YieldFrom):
+            if not self._yield_stack:
+                raise Undecided("yield from outside a generator function")
+            v_ = self._expr(e.value, env, mod, cls)
+            if not isinstance(v_, (list, tuple, range)) and not hasattr(v_, "__next__"):
+                raise Undecided("yield from %s" % type(v_).__name__)
+            self._yield_stack[-1].extend(list(v_))
+            return None
         if isinstance(e, ast.Lambda):
             fd = ast.FunctionDef(name="<lambda>", args=e.args, body=[ast.copy_location(ast.Return(value=e.body), e)], decorator_list=[], returns=None, type_comment=None)
             ast.copy_location(fd, e)
